@@ -425,6 +425,9 @@ def run(p, report, tier):
                        f"{upd.file}:{upd.node.lineno}", bool(dep_q),
                        detail=(f"`{norm_stmt(dep_q[0].ev.node, 70)}`" if dep_q else
                                f"no store to self.{attr} in update depends on queried_indices / candidates"))
+    # the commit applies the recurrence the simulation (and hence the guard) assumed
+    from . import c10
+    c10.check_transitions(p, report, [(ci, f) for ci, f in ents], "R4.4")
     # per-instance indicator must not be used after its loop (only the last
     # instance of a chunk would be accounted)
     seen_fn = set()
